@@ -217,6 +217,7 @@ C17_LIMITS = {
     'dimensions': ('limit 10 %d\n', 7, [6, 7, 8]),
     'string-table-255xN': ('limit 13 %d\n', 255, [128, 129, 254, 255]),
     'int-matrix-255xN': ('limit 14 %d\n', 128, [64, 65, 127, 128]),
+    'record-size-with-description': ('limit 15 %d\n', 248, [200, 247, 248, 249, 250, 255]),
     'points': ('limit 6 %d\nprate 8\nlimit 8 2\n', 255, [254, 255, 256, 300]),
     'channels': ('limit 7 %d\nprate 8\narate 1\nlimit 8 2\n', 255, [254, 255, 256, 300]),
     'subframes-x-channels': ('limit 7 255\nlimit 12 %d\nlimit 8 1\n', 257, [256, 257, 258, 300]),
@@ -300,7 +301,7 @@ def _c14_poison_pair(plain_replay, case_paths, tier, keep_dir=None, valgrind=Fal
             if os.path.exists(q):
                 os.remove(q)
         env = V.base_env({'VERIF_TIER': tier, 'MALLOC_PERTURB_': str(byte), 'VERIF_STACK_BYTE': str(byte), 'GLIBC_TUNABLES': 'glibc.malloc.tcache_count=0',
-                          'VERIF_DIGEST_OUT': dg, 'VERIF_OPEN_FINDINGS': ' '.join(k['id'] for k in V.open_findings())})
+                          'VERIF_DIGEST_OUT': dg, 'VERIF_OPEN_FINDINGS': V.open_findings_env()})
         if keep_dir:
             os.makedirs(os.path.join(keep_dir, tag), exist_ok=True)
             env['VERIF_KEEP_DIR'] = os.path.join(keep_dir, tag)
@@ -347,7 +348,7 @@ def c14(tier):
     n = 200000 if tier == 'thorough' else 12000
     shards = 16
     m = V.run_pbt_shards('C14', bins, n, 100, shards, tier)
-    env = {'VERIF_TIER': tier, 'VERIF_OPEN_FINDINGS': ' '.join(k['id'] for k in V.open_findings())}
+    env = {'VERIF_TIER': tier, 'VERIF_OPEN_FINDINGS': V.open_findings_env()}
     seen = set()
     for f in m['fails']:
         if f['text'] is None:
